@@ -252,3 +252,122 @@ def c15_task(shard, tid0, seed, nhist, steps, nconv):
         if tid0 % 16 == 0 or True:
             samples.append(dict(kind='bdd_to_mdd', info=evs[0]['info'], dvars=evs[0]['dvars'], umap=evs[0]['umap'][:6]))
     return dict(shard=shard, traces=nhist + 1, events=nev, fingerprints=fps, samples=samples[:1])
+
+
+# ================= S2 for the MDD model: paths of MC_MDD replayed into dd.mdd =================
+MODEL_DVARS = {'x': dict(level=0, len=3), 'y': dict(level=1, len=2)}     # MC_MDD!IV
+
+
+def _shapes(succ):
+    """node -> structural key (level, signed child keys...): invariant under renumbering."""
+    memo = {}
+
+    def key(r):
+        n = abs(r)
+        if n not in memo:
+            lvl, kids = succ[n]
+            memo[n] = (lvl, tuple(key(c) for c in kids))
+        return (1 if r > 0 else -1, memo[n])
+    for n in succ:
+        key(n)
+    return memo, key
+
+
+def mdd_conformance(model, real, slots):
+    """Model state of MC_MDD vs the real dd.mdd.MDD tables, up to renumbering of
+    the nodes (dd.mdd allocates freed numbers from a set: no fixed order).
+    `slots`: slot -> real reference."""
+    from collections import Counter
+    from harness.drivers.graph import _as_map
+    mm = model['m']
+    msucc = {n: (t[0], tuple(t[1])) for n, t in _as_map(mm['succ']).items()}
+    rsucc = {u: (t[0], tuple(x for x in t[1:] if x is not None)) for u, t in real._succ.items()}
+    bad = []
+    mk, mkey = _shapes(msucc)
+    rk, rkey = _shapes(rsucc)
+    mref = _as_map(mm['ref'])
+    if Counter((mk[n], mref[n]) for n in msucc if n != 1) != \
+            Counter((rk[u], real._ref[u]) for u in rsucc if u != 1):
+        bad.append('nodes_and_counts')
+    for k, hv in enumerate(model['h'], start=1):
+        rv = slots.get(k, 0)
+        if (hv == 0) != (rv == 0) or (hv and mkey(hv) != rkey(rv)):
+            bad.append('handle')
+            break
+    return bad
+
+
+def mdd_graph_task(shard, dot, part, nparts, limit, seed, first_tid):
+    from harness.drivers import graph
+    last, edges, roots = graph.read_graph(dot)
+    paths, nstates = graph.bfs_paths(last, edges, roots)
+    paths = graph.sample_paths(paths, limit, seed)
+    mine = paths[part::nparts]
+    conf = dict(steps=0, equal=0, fields={}, first=None)
+    events = 0
+    fps = set()
+    with open(shard, 'w') as f:
+        for i, p in enumerate(mine):
+            tr = MTrace(first_tid + i, dict(MODEL_DVARS), seed)
+            m = tr.m
+            slot = {}
+
+            def val(a):
+                k, sg = a
+                return sg if k == 0 else sg * slot[k]
+
+            def put(k, ret):
+                old = slot.get(k)
+                slot[k] = ret
+                if old is not None:
+                    drop_ref(old)
+
+            def drop_ref(u):
+                def dec():
+                    m.decref(u)
+                    tr.ext[abs(u)] -= 1
+                    if not tr.ext[abs(u)]:
+                        del tr.ext[abs(u)]
+                    return 0
+                tr.call('mdd.decref', dict(u=abs(u)), dec)
+            ok = True
+            for n in p:
+                a = last[n]
+                if a[0] == 'val':
+                    kids = [1 if j == a[3] else -1 for j in range(MODEL_DVARS['xy'[a[2]]]['len'])]
+                    r, exc = tr.call('mdd.find_or_add', dict(level=a[2], kids=kids),
+                                     lambda: m.find_or_add(a[2], *kids), hold=True)
+                    put(a[1], r)
+                elif a[0] == 'ite':
+                    g, u, v = val(a[2]), val(a[3]), val(a[4])
+                    r, exc = tr.call('mdd.ite', dict(g=g, u=u, v=v), lambda: m.ite(g, u, v), hold=True)
+                    put(a[1], r)
+                elif a[0] == 'drop':
+                    drop_ref(slot.pop(a[1]))
+                elif a[0] == 'gc':
+                    tr.call('mdd.gc', dict(), lambda: (m.collect_garbage(), 0)[1])
+                elif a[0] != 'init':
+                    raise RuntimeError('unknown MC_MDD action %r' % (a,))
+                if ok:
+                    bad = mdd_conformance(graph.model_state(dot, n), m, slot)
+                    conf['steps'] += 1
+                    if not bad:
+                        conf['equal'] += 1
+                    else:
+                        ok = False
+                        for b in bad:
+                            conf['fields'][b] = conf['fields'].get(b, 0) + 1
+                        if conf['first'] is None:
+                            conf['first'] = dict(actions=[repr(last[x]) for x in p[:p.index(n) + 1]], differs=bad)
+            f.write(tr.dumps() + '\n')
+            events += len(tr.events)
+            fps |= {('mddpath', tuple(repr(last[x]) for x in p))}
+            for u, c in list(tr.ext.items()):
+                for _ in range(c):
+                    m.decref(u)
+    kinds = {}
+    if part == 0:
+        for v in last.values():
+            kinds[v[0]] = kinds.get(v[0], 0) + 1
+    return dict(shard=shard, traces=len(mine), events=events, fingerprints=fps, samples=[],
+                model_states=nstates, kinds=kinds, conformance=conf)
